@@ -370,6 +370,33 @@ func TestC08(t *testing.T) {
 			c.W.Profs = keep
 			c.Siblings = true
 		}
+		if rapid.IntRange(0, 7).Draw(t, "verbatim-copy") == 0 {
+			// the certificate repeats an entry of its profile word for word (lists in an order of the writer's choosing):
+			// M does not differ from the entry, so the extension appears once
+			var x core.Extension
+			switch rapid.IntRange(0, 2).Draw(t, "vc-kind") {
+			case 0:
+				x = core.Extension{Kind: core.KKU, HasContent: true, KU: rapid.SampledFrom([][]string{{"crlSign", "keyCertSign"}, {"keyEncipherment", "digitalSignature"},
+					{"keyAgreement", "nonRepudiation", "digitalSignature"}, {"crlSign", "digitalSignature", "keyCertSign"}}).Draw(t, "vc-ku")}
+			case 1:
+				x = core.Extension{Kind: core.KEKU, HasContent: true, EKU: []string{"clientAuth", "serverAuth", "1.3.6.1.5.5.7.3.9"}}
+			default:
+				x = core.Extension{Kind: core.KSAN, HasContent: true, SAN: []core.GN{{Type: "dns", Name: "b.example"}, {Type: "ip", Name: "10.0.0.1"}, {Type: "dns", Name: "a.example"}}}
+			}
+			if rapid.Bool().Draw(t, "vc-critical") {
+				x.Critical = core.BoolP(true)
+			}
+			e := &c.W.Ents[len(c.W.Ents)-1]
+			e.Extensions = append(e.Extensions, cloneExt(x))
+			px := cloneExt(x)
+			if rapid.Bool().Draw(t, "vc-optional") {
+				px.Optional = core.BoolP(true)
+			}
+			name := "verbatim profile"
+			c.W.Profs = append(c.W.Profs, core.Profile{File: "profiles/verbatim.yaml", Name: name, Extensions: []core.Extension{px}})
+			e.Profile = name
+			r.Classes["e2e:verbatim-copy-of-profile-entry"]++
+		}
 		if rapid.IntRange(0, 7).Draw(t, "bc-near-miss") == 0 {
 			// profile and certificate carry basicConstraints that differ only in an explicit "pathLen: 0"
 			with := core.Extension{Kind: core.KBC, HasContent: true, BC: &core.BC{Ca: core.BoolP(true), PathLen: core.IntP(0)}}
